@@ -422,7 +422,8 @@ open Zap.Stored
 def mkField (v : Bool) (b : Batch) (p : Name × List (Bytes × List Entry)) : FieldM :=
   { name := p.1,
     terms := (sortTerms p.2).map (fun t => (t.1, PostRep.general t.2)),
-    dv := if b.length ≠ 0 ∧ includeDocValues b p.1 then some (docTermMap b.length (sortTerms p.2)) else none,
+    dv := if b.length ≠ 0 ∧ includeDocValues b p.1
+          then some (addShapes b p.1 (docTermMap b.length (sortTerms p.2))) else none,
     thes := if b.length ≠ 0 ∧ hasThes b p.1 then some (buildThes b p.1) else none,
     vec := if v ∧ b.length ≠ 0 then buildVec b p.1 else none }
 
@@ -517,20 +518,18 @@ theorem recorded_docTermMap (N : Nat) (terms : List (Bytes × List Entry)) (doc 
   simp only [List.mem_range] at this
   exact this
 
-/-- Shape of doc-value data: document numbers strictly ascending and in range,
-    no document with an empty term list. -/
-theorem docTermMap_shape (N : Nat) (terms : List (Bytes × List Entry)) :
-    ((docTermMap N terms).map (·.1)).Pairwise (· < ·) ∧
-    ∀ p ∈ docTermMap N terms, p.1 < N ∧ p.2 ≠ [] := by
-  unfold docTermMap
+/-- Shape of keyed data: keys strictly ascending and in range, no key with an
+    empty list. -/
+theorem keyed_shape {β : Type} (g : Nat → List β) (N : Nat) :
+    ((((List.range N).map (fun k => (k, g k))).filter (fun p => !p.2.isEmpty)).map (·.1)).Pairwise (· < ·) ∧
+    ∀ p ∈ ((List.range N).map (fun k => (k, g k))).filter (fun p => !p.2.isEmpty), p.1 < N ∧ p.2 ≠ [] := by
   constructor
-  · have hsub : List.Sublist ((((List.range N).map (fun n => (n, (terms.filter (fun p => p.2.any (·.doc = n))).map (·.1)))).filter
+  · have hsub : List.Sublist ((((List.range N).map (fun k => (k, g k))).filter
         (fun p => !p.2.isEmpty)).map (·.1)) (List.range N) := by
-      have h := (List.filter_sublist (p := fun (p : Nat × List Bytes) => !p.2.isEmpty)
-        (l := (List.range N).map (fun n => (n, (terms.filter (fun p => p.2.any (·.doc = n))).map (·.1))))).map (·.1)
+      have h := (List.filter_sublist (p := fun (p : Nat × List β) => !p.2.isEmpty)
+        (l := (List.range N).map (fun k => (k, g k)))).map (·.1)
       rw [List.map_map] at h
-      have hid : ((fun (x : Nat × List Bytes) => x.1) ∘
-          fun n => (n, (terms.filter (fun p => p.2.any (·.doc = n))).map (·.1))) = id := rfl
+      have hid : ((fun (x : Nat × List β) => x.1) ∘ fun k => (k, g k)) = id := rfl
       rw [hid, List.map_id] at h
       exact h
     exact List.Pairwise.sublist hsub List.pairwise_lt_range
@@ -538,6 +537,82 @@ theorem docTermMap_shape (N : Nat) (terms : List (Bytes × List Entry)) :
     obtain ⟨hm, hne⟩ := List.mem_filter.mp hp
     obtain ⟨k, hk, rfl⟩ := List.mem_map.mp hm
     exact ⟨List.mem_range.mp hk, by simpa using hne⟩
+
+/-- Shape of doc-value data: document numbers strictly ascending and in range,
+    no document with an empty term list. -/
+theorem docTermMap_shape (N : Nat) (terms : List (Bytes × List Entry)) :
+    ((docTermMap N terms).map (·.1)).Pairwise (· < ·) ∧
+    ∀ p ∈ docTermMap N terms, p.1 < N ∧ p.2 ≠ [] :=
+  keyed_shape (fun n => (terms.filter (fun p => p.2.any (·.doc = n))).map (·.1)) N
+
+/-! Extra doc values (encoded geo shapes) -/
+
+/-- The `visitField` walk over a list of instances keeps the shape of the last
+    ordinary instance of the field that has one. -/
+theorem foldl_shapeStep (n : Name) : ∀ (l : List FieldIn) (acc : Option Bytes),
+    l.foldl (shapeStep n) acc
+      = (((l.filter (fun f => f.kind == .fld && f.name = n)).filterMap (·.shape)).getLast?).or acc
+  | [], acc => by simp
+  | f :: l, acc => by
+    rw [List.foldl_cons, foldl_shapeStep n l]
+    unfold shapeStep
+    by_cases hc : f.kind = .fld ∧ f.name = n
+    · have hb : (f.kind == FKind.fld && decide (f.name = n)) = true := by simp [hc.1, hc.2]
+      rw [if_pos hc]
+      simp only [List.filter_cons, hb, if_true]
+      cases hs : f.shape with
+      | none => simp only [List.filterMap_cons, hs]
+      | some s =>
+        simp only [List.filterMap_cons, hs]
+        rw [List.getLast?_cons]
+        cases ((l.filter (fun f => f.kind == .fld && f.name = n)).filterMap (·.shape)).getLast? <;> simp
+    · have hb : (f.kind == FKind.fld && decide (f.name = n)) = false := by
+        simpa using hc
+      rw [if_neg hc]
+      simp only [List.filter_cons, hb, Bool.false_eq_true, if_false]
+
+/-- What `realloc` leaves in `extraDocValues` for (document, field) is the
+    specified shape of the document. -/
+theorem extraDocValue_eq (d : DocIn) (n : Name) : extraDocValue d n = Spec.shapeOf d n := by
+  unfold extraDocValue Spec.shapeOf DocIn.visitOrder
+  rw [List.foldl_append, foldl_shapeStep, foldl_shapeStep, List.filter_filter, List.filter_filter]
+  have h1 : (fun (a : FieldIn) => (a.kind == FKind.fld && decide (a.name = n)) && (a.kind == FKind.comp)) =
+      fun _ => false := by
+    funext a; cases h : a.kind <;> simp
+  have h2 : (fun (a : FieldIn) => (a.kind == FKind.fld && decide (a.name = n)) && (a.kind != FKind.comp)) =
+      fun a => a.kind == FKind.fld && decide (a.name = n) := by
+    funext a; cases h : a.kind <;> simp
+  rw [h1, h2]
+  have h3 : d.fields.filter (fun _ => false) = [] := List.filter_eq_nil_iff.mpr (by simp)
+  rw [h3]
+  simp only [List.filterMap_nil, List.getLast?_nil, Option.or_none]
+
+/-- The values recorded for a document after the extra doc values were added:
+    what was recorded before, then the document's extra value. -/
+theorem recorded_addShapes (b : Batch) (n : Name) (dtm : List (Nat × List Bytes)) (doc : Nat) :
+    recorded (addShapes b n dtm) doc = if doc < b.length then recorded dtm doc ++ extraAt b n doc else [] := by
+  unfold recorded addShapes
+  have := recorded_keyed (fun k => ((dtm.find? (·.1 = k)).map (·.2)).getD [] ++ extraAt b n k) doc
+    (List.range b.length) List.nodup_range
+  simp only [List.mem_range] at this
+  exact this
+
+/-- Shape of the doc-value data with the extra values: document numbers strictly
+    ascending and in range, no document with an empty value list. -/
+theorem addShapes_shape (b : Batch) (n : Name) (dtm : List (Nat × List Bytes)) :
+    ((addShapes b n dtm).map (·.1)).Pairwise (· < ·) ∧
+    ∀ p ∈ addShapes b n dtm, p.1 < b.length ∧ p.2 ≠ [] :=
+  keyed_shape (fun k => ((dtm.find? (·.1 = k)).map (·.2)).getD [] ++ extraAt b n k) b.length
+
+/-- A document with an extra value has an entry whether or not it has terms. -/
+theorem addShapes_mem_of_extra (b : Batch) (n : Name) (dtm : List (Nat × List Bytes)) (doc : Nat)
+    (hdoc : doc < b.length) (h : extraAt b n doc ≠ []) :
+    (doc, recorded dtm doc ++ extraAt b n doc) ∈ addShapes b n dtm := by
+  unfold addShapes recorded
+  refine List.mem_filter.mpr ⟨List.mem_map.mpr ⟨doc, List.mem_range.mpr hdoc, rfl⟩, ?_⟩
+  cases hx : extraAt b n doc with
+  | nil => exact absurd hx h
+  | cons a as => simp
 
 /-! `sortDedup` sorts and removes duplicates -/
 
@@ -624,7 +699,8 @@ theorem C01_docs (v : Bool) (b : Batch) (s : Seg) (n : Name) (t : Bytes) (k : Na
       · intro hk; exact ⟨es, rfl, hk⟩
 
 /-- Content of a field record of a built segment, found by name: its doc-value
-    data records for every document exactly the specified doc values; a field
+    data (the term walk's `docTermMap` plus the extra doc values) records for
+    every document exactly the specified doc values; a field
     not indexed with doc values (or an empty batch) has no doc-value data. -/
 theorem buildSeg_field_content (v : Bool) (mode : Nat) (b : Batch)
     (hC01 : ∀ n t, match lookup t ((buildSeg v mode b).dictTerms n) with
@@ -638,8 +714,8 @@ theorem buildSeg_field_content (v : Bool) (mode : Nat) (b : Batch)
     f.name = n ∧
     (b ≠ [] ∧ includeDocValues b n = true →
       ∃ terms, f.terms = terms.map (fun t => (t.1, PostRep.general t.2)) ∧
-        f.dv = some (docTermMap b.length terms) ∧
-        ∀ doc, recorded (docTermMap b.length terms) doc = Spec.docValues v b n doc) ∧
+        f.dv = some (addShapes b n (docTermMap b.length terms)) ∧
+        ∀ doc, recorded (addShapes b n (docTermMap b.length terms)) doc = Spec.docValues v b n doc) ∧
     (¬ (b ≠ [] ∧ includeDocValues b n = true) → f.dv = none) := by
   have hmem : f ∈ ((fieldTable b).zip (processDocs v (fieldTable b) b)).map (mkField v b) :=
     List.mem_of_find?_eq_some hfind
@@ -650,10 +726,10 @@ theorem buildSeg_field_content (v : Bool) (mode : Nat) (b : Batch)
   refine ⟨hname, ?_, ?_⟩
   · rintro ⟨hb, hincl⟩
     have hlen : b.length ≠ 0 := by simpa using hb
-    have hdv : f.dv = some (docTermMap b.length (sortTerms d)) := by
+    have hdv : f.dv = some (addShapes b n' (docTermMap b.length (sortTerms d))) := by
       rw [← hmk]; simp only [mkField]; rw [if_pos ⟨hlen, hincl⟩]
     refine ⟨sortTerms d, by rw [← hmk]; rfl, hdv, fun doc => ?_⟩
-    rw [recorded_docTermMap]
+    rw [recorded_addShapes, recorded_docTermMap]
     -- the dictionary of the field
     have hdict : (buildSeg v mode b).dictTerms n' = (sortTerms d).map (fun t => (t.1, PostRep.general t.2)) := by
       unfold Seg.dictTerms Seg.field?
@@ -665,8 +741,11 @@ theorem buildSeg_field_content (v : Bool) (mode : Nat) (b : Batch)
       exact this
     simp only [Spec.docValues, hincl, if_true]
     by_cases hdoc : doc < b.length
-    · rw [if_pos hdoc, List.getElem?_eq_getElem hdoc]
+    · have hext : extraAt b n' doc = (Spec.shapeOf b[doc] n').toList := by
+        unfold extraAt; rw [List.getElem?_eq_getElem hdoc]; simp only [extraDocValue_eq]
+      rw [if_pos hdoc, if_pos hdoc, List.getElem?_eq_getElem hdoc, hext]
       simp only
+      congr 1
       obtain ⟨hs1, hs2⟩ := sortDedup_spec ((Spec.insts v b[doc] n').flatMap (fun f => f.toks.map (·.term)))
       apply pairwise_blt_ext _ hs1
       · intro t
